@@ -28,7 +28,10 @@ Definition C01_preserves_full : Prop :=
         enum type, composite fields of OBJECT type and (with cov = true) of INTERFACE / UNION type (abs_ok:
         __typename selected directly, inline fragments only, every possible runtime type's variant again
         in the sub-language) nested to any depth, any list / non-null wrappers;
-        pairwise distinct response keys per flattened selection set; no Python field name (when it differs from its response key) equal to another
+        pairwise distinct response keys per flattened selection set — for acceptance alone (cov = false,
+        keys_okD) a key may REPEAT among leaf selections of one field, directly or through fragments: the
+        generator does not merge, the class body's last definition wins and all of them carry the same
+        annotation (C01_repeated_leaf_key_accepted; a repeated COMPOSITE key is finding F27) —; no Python field name (when it differs from its response key) equal to another
         response key of the same set.  Ghost-output guards: no class skipped by the _public_names check
         (third component of op_parse = false), no generated class called BaseModel.
         The classes are all_classes' (operation module + fragments module).
@@ -537,6 +540,35 @@ Example C01_at_mixin_hypotheses_satisfiable :
     jwf jMx = true /\
     accepts 22 cls (schema_enums SX) (AClass (pascal_s "GetUsers")) jMx = true /\
     covers 22 cls (AClass (pascal_s "GetUsers")) jMx = true.
+Proof.
+  do 3 eexists.
+  split; [reflexivity|].
+  split; [vm_compute; reflexivity|].
+  split; [vm_compute; reflexivity|].
+  vm_compute. repeat split.
+Qed.
+
+(* ---- a repeated leaf key (directly, through an inline fragment and through an unpacked spread, with
+        different @include flags) is inside C01_accepts_partial with cov = false; with cov = true (what
+        preservation and strictness demand) it is not ---- *)
+Definition selsD : list sel :=
+  [SField None "user" false []
+     (Some [SField None "id" false [] None;
+            SInline (Some "Node") false [SField None "id" false [] None];
+            SSpread "NodeBits" true;
+            SField (Some "n") "fullName" true [] None; SField (Some "n") "fullName" false [] None])].
+Example C01_repeated_leaf_key_accepted :
+  exists own pub' cls,
+    root_type_name SX "query" = Ok "Query" /\
+    op_parse 10 C0 SX frsX "query" "GetUser" [] selsD = Ok (own, pub', false) /\
+    all_classes 10 C0 SX frsX (DOp "query" "GetUser" [] selsD) = Ok cls /\
+    op_ok 10 false C0 SX frsX [] [] "Query" selsD = true /\ op_ok 10 true C0 SX frsX [] [] "Query" selsD = false /\
+    mx_ok cls [] = true /\ no_basemodel own = true /\
+    (let j := JObj [("user", JObj [("id", JStr "1"); ("n", JStr "A")])] in
+     conf_op 10 SX frsX "Query" selsD j = true /\
+     accepts 12 cls (schema_enums SX) (AClass (pascal_s "GetUser")) j = true) /\
+    conf_op 10 SX frsX "Query" selsD (JObj [("user", JObj [("id", JStr "1")])]) = false /\
+    accepts 12 cls (schema_enums SX) (AClass (pascal_s "GetUser")) (JObj [("user", JObj [("id", JStr "1")])]) = false.
 Proof.
   do 3 eexists.
   split; [reflexivity|].
